@@ -375,6 +375,7 @@ func drawFile(d gen.D) ([]byte, string) {
 		o := gen.DefaultFileOpts()
 		o.MaxMsgs = 2
 		o.FieldPct = 12
+		o.LongSlots = false
 		fs := gen.GenFile(d, o)
 		f, err := gen.BuildFile(fs)
 		if err != nil {
@@ -484,6 +485,55 @@ func TestC04(t *testing.T) {
 			}
 			if best != nil {
 				fail("", msg, *best)
+			}
+		})
+
+		// big valid files (data area beyond the decoder's 4096-byte buffer,
+		// developer payloads beyond its scratch buffer): the verdict on the
+		// valid file under every chunking, and a sample of bursts
+		bigCases := 0
+		hx.RapidCheck(t, rec, "big-files", func(rt *rapid.T, fail func(string, string, any)) {
+			if bigCases >= hx.Pick(12, 150) {
+				return
+			}
+			bigCases++
+			d := gen.D{T: rt}
+			o := gen.DefaultStreamOpts()
+			o.ExtraFileIds = false
+			o.MinRecs, o.MaxRecs = 120, 300
+			o.MaxFields = 10
+			s, _ := gen.GenStream(d, o)
+			b := s.Bytes()
+			rec.Eval("big-files", 1)
+			if len(b) > 4096+14 {
+				rec.Class("file larger than 4096 bytes", 1)
+				rec.NonTrivial(hx.FPBytes(b))
+			}
+			if msg, ok := checkValid(b); !ok {
+				bigCases = 0
+				fail("", msg, corruptCase{File: hex.EncodeToString(b)})
+			}
+			// sampled bursts, favouring the bytes around every 4096-byte boundary of the data area
+			hs := int(b[0])
+			for k := 0; k < 120; k++ {
+				var pos int
+				if k%2 == 0 && len(b) > hs+4096+16 {
+					nb := (len(b) - hs - 2) / 4096
+					pos = (hs+4096*(1+d.Int(0, nb-1, "bnd")))*8 + d.Int(-200, 200, "bndoff")
+				} else {
+					pos = d.Int(8, len(b)*8-17, "pos")
+				}
+				l := d.Int(1, 16, "len")
+				pat := uint32(1) | uint32(d.Int(0, 1<<16-1, "pat"))&(1<<uint(l)-1) | 1<<uint(l-1)
+				c := corruptCase{File: hex.EncodeToString(b), BitPos: pos, Length: l, Pattern: pat}
+				if pos < 8 || !allowed(len(b), pos, l) {
+					continue
+				}
+				rec.Eval("big-files", 1)
+				if msg, ok := checkCorrupt(c); !ok {
+					bigCases = 0
+					fail("", msg, c)
+				}
 			}
 		})
 
